@@ -383,6 +383,15 @@ func (sw *sweeper) freeVarContents(fn *ssa.Function, fv *ssa.FreeVar, set map[*s
 	if len(out) == 0 {
 		return []root{{kind: "freevar", desc: "captured variable " + fv.Name()}}
 	}
+	if !set[parent] {
+		// the closure was created by a function that does not run inside the activations under analysis (e.g. at
+		// compile time): what that function allocated is shared by every later call of the closure, it is not fresh
+		for i := range out {
+			if out[i].kind == "fresh" {
+				out[i] = root{kind: "captured-alloc", desc: "memory allocated by " + sw.key(parent) + " when the closure was created (" + out[i].desc + "), shared by every call", fn: fn}
+			}
+		}
+	}
 	return out
 }
 
